@@ -71,7 +71,7 @@ Verdict ==
 Fatal(v) == \E w \in v : w \notin {"drift:lock-admitted-not-realised", "drift:lock-forbidden-realised",
                                    "status-differs", "rows-differ", "misaligned-batch", "content-differs",
                                    "differs-from-solo", "fault"}
-Detail == IF Ev.e = "Run" THEN ToString(FirstDiff(Ev.calls, ref)) ELSE ""
+Detail == IF Ev.e = "Run" THEN ToString(FirstDiff(Ev.calls, ref)) ELSE IF Ev.e = "Conc" THEN Ev.prog ELSE ""
 
 TInit == /\ l = 1 /\ skip = FALSE /\ bad = <<>> /\ table = <<>> /\ ref = <<>> /\ proj = <<>> /\ solo = <<>>
          /\ stats = [execs |-> 0, events |-> 0, failed |-> 0]
